@@ -52,11 +52,16 @@ def check(ctx):
         "the effect class of each method (what it does at run time: allocate / open a scope / end epochs / view / …) is assigned by NAME in "
         "translator/sigs2lean.py and given meaning by the hand-written dynamic semantics of Life/Calculus.lean; the arena engine, not this one, "
         "ties that to the implementation",
-        "target C04.sound_target (soundness for every table with sigOK) — see Props/C04.lean for what is proved",
+        "target C04.sound_target (soundness of the calculus for the signature table exactly as extracted) is FALSE and its negation is proved "
+        "(C04.sound_target_fails, witness C04.c04a_witness = known finding C04-a); proved instead: C04.sound (every table satisfying sigOK) and "
+        "C04.sound_partial (the extracted table without the `&'a mut Bump` implementor of BumpAllocatorCoreScope)",
     ]
-    return finish(ctx, "Gen/Sigs.lean (regenerated from the sources: 203 signatures, BumpAllocatorCoreScope implementors, const-assert blocks, "
-                       "Send/Sync impls) satisfies the decidable adequacy predicate sigOK (by `decide`) apart from the recorded deviation C04-a; "
-                       "the calculus' executable type checker agrees with rustc on the generated corpus")
+    return finish(ctx, "Gen/Sigs.lean (regenerated from the sources: signatures with receiver mode and result lifetimes, BumpAllocatorCoreScope "
+                       "implementors, const-assert blocks, struct fields and Send/Sync impls) satisfies the decidable adequacy predicate sigOK "
+                       "(by `decide`) apart from the recorded deviation C04-a; sigOK implies soundness of the region calculus (every accepted "
+                       "program runs without use-after-epoch-end / dead-arena / cross-thread fault; proved by induction over programs) and that "
+                       "compiling settings conversions do not weaken a guarantee (for all settings); the calculus' executable type checker "
+                       "agrees with rustc (verdict and error class) on every program of the generated corpus")
 
 def replay(ctx):
     fails = ctx.replay.get("failures", [])
